@@ -30,8 +30,9 @@ CLAIMED = {
             "the bound; dtw.warping_paths is compared with the as-written model on every cell, the C full matrix, "
             "compact+expand and slice expansion cell-wise with the specification model applying the property's "
             "two freedoms",
-            "C fill/expand skeletons tied by correspondence only; remaining C-side defects are recorded as known "
-            "findings",
+            "the VALUES the C fill kernels store are tied by correspondence (incl. a direct judge of the compact array "
+            "through the layout); that fill and expand address the same slot is proved (CFill.v, CExpand.v); border-cell "
+            "finding F23 recorded",
             "Coq proof (cell-wise optimality + refinement of the as-written Python routine) + regenerated band + "
             "correspondence"),
     "C03": ("Coq theorems: any pruning that skips only cells whose optimum exceeds the bound computes all cells "
@@ -41,7 +42,7 @@ CLAIMED = {
             "distance where ED is a valid upper bound; the implementation's max_dist/use_pruning results (py/C "
             "distance, warping_paths, distance matrices) are compared with the specification and, for the single- "
             "pair routines of both engines, with the as-written model",
-            "bookkeeping of the C warping-paths kernels: abstract theorem + correspondence; F05 recorded finding",
+            "bookkeeping of the C warping-paths kernels: abstract theorem + correspondence",
             "Coq proof (PrunedDTW: abstract soundness + refinement of the as-written routine) + correspondence"),
     "C09": ("Coq theorems C09_lb_keogh_le_dtw and C09_dtw_le_euclidean for all series/windows/penalties; lb_keogh_model "
             "uses the index arithmetic regenerated from dtw.lb_keogh; ed.distance/ed_cc/lb_keogh (py and C) compared "
@@ -55,15 +56,22 @@ CLAIMED = {
     "C11": ("the DTW model and its optimality theorem are stated over vector points (so they are the multivariate "
             "statement), plus stride addressing and d=1 lemmas; ndim distance, cost matrix and distance matrices of "
             "both engines are compared with the extracted model, d=1 with the univariate routines",
-            "ndim kernels tied by correspondence; C warping-paths findings F21/F05c/F24 recorded",
+            "ndim kernels tied by correspondence",
             "Coq proof + correspondence"),
     "C05": ("Coq theorems: the traceback modelled on dtw.best_path yields a contiguous unit-step path on finite (in-band) "
             "cells whose cost, penalties included, equals the start cell's value; exact path comparison with "
             "dtw.best_path from random start cells; every path returned by warping_path / warping_path_fast / "
             "best_path_compact / customstart is validated by an implementation-independent checker (steps, band, "
-            "max_step, psi corners, cost == distance == model optimum)",
-            "C tracebacks tied by the validity checker only; psi-end/penalty traceback defects recorded (F28, F11, F29)",
-            "Coq proof (traceback cost) + correspondence + independent path checker"),
+            "max_step, psi corners, cost == distance == model optimum); dtw.warping_path AS WRITTEN (end relaxation marks "
+            "+ _relaxed_end, RelaxedEnd.v) starts the trace in the cell holding the distance; the C tracebacks: every "
+            "minimal-predecessor rule traces a path costing the start cell and the C rule is one (TracebackC.v), the 15 "
+            "loops of the five C routines address the compact array through its layout (CTrace.v over regenerated "
+            "offsets/moves), and the C loop simulates the abstract traceback when the compact array holds the matrix "
+            "through the layout (CTraceSim.v; that content is judged cell by cell under C04)",
+            "the content of the compact array (C04 correspondence) and dtw_wps_loc (start slot of customstart) are "
+            "inputs of the C traceback theorem; isclose/prob decisions not modelled; F28b recorded",
+            "Coq proof (traceback cost, end relaxation, layout refinement of the C loops) + regenerated C tables + "
+            "correspondence + independent path checker"),
     "C06": ("Coq theorems over the functions REGENERATED from dtw.py (_distance_matrix_length, _complete_block, "
             "distance_matrix_python, distance_array_index): advertised length = number of selected pairs, compact result "
             "= map dist over pairs in row-major order, condensed index addresses pair (min,max); C loops, square form, "
@@ -73,19 +81,26 @@ CLAIMED = {
     "C07": ("Coq theorems: the parallel loops' output slots are exactly 0..len-1 in row-major order, hence distinct, hence "
             "any permutation of the cell writes (all thread counts / schedules / interleavings) equals the serial "
             "result; private-clause completeness by computation over the table regenerated from dd_dtw_openmp.c; "
-            "parallel == serial replayed for 1..64 threads, all block forms, and the multiprocessing variants",
-            "partial: kernel re-entrancy, libgomp and Pool.map order are outside the model",
+            "the kernels never write the settings struct all pairs share (regenerated list of writers of a DTWSettings* "
+            "parameter, CReent.v); parallel == serial replayed for 1..64 threads, all block forms, and the "
+            "multiprocessing variants",
+            "partial: the kernels' own heap buffers, libgomp and Pool.map order are outside the model",
             "Coq proof (permutation invariance) + regenerated OpenMP clause table + correspondence"),
-    "C08": ("Coq lemmas (partial): psi prologue and last-row psi scan of the four dtw_distance* instances stay inside the "
-            "2*length allocation, over size/index expressions regenerated from dd_dtw.c; band writes inside the row "
-            "buffer; all exported routines run under AddressSanitizer+UBSan with exact-size caller buffers",
-            "partial: only the rolling-buffer index arithmetic is proved, the rest is sanitizer correspondence",
-            "Coq proof over translator output (partial) + ASan/UBSan correspondence"),
+    "C08": ("Coq theorems over tables regenerated from dd_dtw.c: psi prologue / psi scan / every band access of the four "
+            "dtw_distance* kernels stay inside the two-row buffer; the compact warping-paths layout keeps every band "
+            "cell inside its row (CWps.v); the FILL loops of the four warping-paths kernels (CFill.v) and the EXPAND "
+            "loops of both slice routines (CExpand.v) address the array through that layout, inside their rows / the "
+            "output block, for every length, window, slice; skip loops bounded; all exported routines additionally run "
+            "under AddressSanitizer+UBSan with exact-size caller buffers",
+            "partial: dtw_wps_loc, negativize/positivize, dtw_wps_max, DBA and glue are sanitizer correspondence only "
+            "(the traceback loops are proved under C05)",
+            "Coq proof over translator output (index arithmetic of distance, fill and expand loops) + ASan/UBSan "
+            "correspondence"),
     "C17": ("Coq theorems: Needleman-Wunsch value = optimum over all grid paths / global alignments under the code's cost "
             "function (instance of the generic grid DP over (Z,min,+)); the traceback through the recorded arrows "
             "realises the value for every priority order; score matrix, value and traceback compared exactly with the "
             "extracted model, value with an independent brute-force optimum, alignment strings with a checker",
-            "dp.dp / best_alignment hand-modelled, tied by exact correspondence; F12 (border gap) and F31 recorded",
+            "dp.dp / best_alignment hand-modelled, tied by exact correspondence",
             "Coq proof (grid DP instance) + exact correspondence + brute force"),
     "C19": ("Coq theorems over the reals for the seven closed-form expressions REGENERATED from similarity.py: "
             "antitone/monotone, value 1 at distance 0, range [0,1]; documented formulas (regenerated from the docstrings) = computed formulas; parameter "
@@ -97,7 +112,9 @@ CLAIMED = {
             "the association table built like the code's sums exactly the aligned pairs' costs, zero cost is a fixed "
             "point; Python result compared exactly (rationals) with means over the extracted optimal paths, C results "
             "with the property's postconditions incl. the exact objective",
-            "real-number axioms; dba hand-modelled; engines may differ on ties",
+            "real-number axioms; dba hand-modelled; engines may differ on ties; the full statement (sum of squared DTW "
+            "distances never increases, DbaDtw.v) takes DTW's two characterising facts (attained by the old path, lower "
+            "bound of every admissible path) as premises",
             "Coq proof (Reals) + exact correspondence through the extracted path model"),
     "C14": ("Coq theorem C14_search_exact: the heap-with-running-bound search with lower-bound skipping and early "
             "abandoning returns exactly the k smallest eligible distances, for all candidate lists, k, bounds; lower "
@@ -126,12 +143,13 @@ CLAIMED = {
             "minimum), clusters partition the assigned indices with keys < k, unassigned only if all distances "
             "infinite, iteration counter <= max_it + 1; postconditions checked on fit() over seeds x init modes x "
             "drop_stddev x engines x serial/parallel",
-            "partial: reachability of the final step is correspondence only (F34, F35 recorded)",
+            "partial: reachability of the final step is correspondence only",
             "Coq proof (assignment step) + postcondition checker"),
     "C18": ("Coq theorems about the match trace: cells after the start are positive, path contiguous/monotone, no cell of "
             "an earlier (negated) match is reused; the affinity recurrence (exp, floats) is compared cell by cell with a "
             "reference implementation, C engines with Python, match iterator histories with the proved properties",
-            "partial: the recurrence itself is float code tied by correspondence; C-engine differences recorded (F15, F21)",
+            "partial: the recurrence itself is float code tied by correspondence (search mask and first-match-from-the-"
+            "maximum are checked on the implementation)",
             "Coq proof (trace model) + reference-implementation correspondence"),
     "C20": ("Coq theorems: a view that went through verify_np_array is read by C as its logical content (any strides), "
             "unguarded strided reads refuted; the table of ALL call sites into pointer-taking compiled routines is "
